@@ -9,13 +9,15 @@
 //     scanned with core.Scan; then directories and files are REPLACED by links
 //     to the canary (the window between scan and transition); then random
 //     transitions (removals, creations, swaps, with files staged through the
-//     real staging.Stager), filesystem.Opener opens (rsync's way to files) and
+//     real staging.Stager), filesystem.Opener opens, a supply request through
+//     the real rsync.Transmit (what reaches the receiving side is recorded) and
 //     a second scan run on it. The canary tree is hashed before and after and
 //     must be untouched, and every operation whose path crosses a link must
 //     have reported failure.
 //
 //  2. strace runs (child process, fewer): the harness re-executes itself in
-//     -child mode to perform ONE operation (Opener.OpenFile sequence, core.Scan,
+//     -child mode to perform ONE operation (Opener.OpenFile sequence,
+//     rsync.Transmit, core.Scan,
 //     core.Transition - also with EXDEV injected into the rename, so that the
 //     cross-device copy runs - or a whole cycle through two real local
 //     endpoints: Scan, Stage with stageFromRoot, Supply, Transition) under
@@ -50,6 +52,7 @@ import (
 	"github.com/mutagen-io/mutagen/pkg/synchronization/core"
 	mutagenignore "github.com/mutagen-io/mutagen/pkg/synchronization/core/ignore/mutagen"
 	"github.com/mutagen-io/mutagen/pkg/synchronization/endpoint/local/staging"
+	"github.com/mutagen-io/mutagen/pkg/synchronization/rsync"
 
 	"verifharness/internal/coretree"
 	"verifharness/internal/hx"
@@ -211,6 +214,57 @@ func stage(st *staging.Stager, path string, content []byte) []byte {
 	must(sink.Close())
 	d := sha1.Sum(content)
 	return d[:]
+}
+
+// ------------------------------------------------------------ supplying
+
+// collector is an rsync.Encoder that records, per requested file, the literal
+// data and the error message that reached the receiving side.
+type collector struct {
+	Data    [][]byte `json:"data"`
+	Errors  []string `json:"errors"`
+	current []byte
+}
+
+func (c *collector) Encode(t *rsync.Transmission) error {
+	if t.Operation != nil {
+		c.current = append(c.current, t.Operation.Data...)
+	}
+	if t.Done {
+		c.Data = append(c.Data, c.current)
+		c.Errors = append(c.Errors, t.Error)
+		c.current = nil
+	}
+	return nil
+}
+
+func (c *collector) Finalize() error { return nil }
+
+func emptySignatures(n int) []*rsync.Signature {
+	out := make([]*rsync.Signature, n)
+	for i := range out {
+		out[i] = &rsync.Signature{}
+	}
+	return out
+}
+
+// supplyFailures judges what a supply request delivered: a path that crosses
+// a link (crosses[i]) must have produced an error and no data, and no data at
+// all may come from the canary (every canary file's content contains "canary").
+func supplyFailures(paths []string, crosses []bool, c *collector) []string {
+	var out []string
+	if len(c.Data) != len(paths) {
+		return []string{fmt.Sprintf("supply answered %d of %d requested paths", len(c.Data), len(paths))}
+	}
+	for i, p := range paths {
+		if strings.Contains(string(c.Data[i]), "canary") {
+			out = append(out, "supply delivered data from the canary for "+p)
+		}
+		if crosses[i] && (c.Errors[i] == "" || len(c.Data[i]) > 0) {
+			out = append(out, "supply of a path crossing a link did not fail: "+p)
+		}
+	}
+	return out
 }
 
 // ------------------------------------------------------------ canary runs
@@ -406,6 +460,27 @@ func runCanary(c CanaryCase) (ok bool, detail string, tags []string) {
 	}
 	opener.Close()
 
+	// supplying file data: the real rsync.Transmit on the root
+	supply := []string{"l/secret", "labs/f", "lf", "l/sub/g", "d/f", "d/sub/g", "e"}
+	for i := 0; i < 5 && len(paths) > 0; i++ {
+		supply = append(supply, paths[r.Intn(len(paths))])
+	}
+	sort.Strings(supply)
+	crossFlags := make([]bool, len(supply))
+	for i, p := range supply {
+		crossFlags[i] = crossesLink(a.Root, p, true)
+		if crossFlags[i] {
+			crossings++
+		}
+	}
+	col := &collector{}
+	if err := rsync.Transmit(a.Root, supply, emptySignatures(len(supply)), rsync.NewEncodingReceiver(col)); err != nil {
+		failures = append(failures, "rsync.Transmit failed as a whole: "+err.Error())
+	} else {
+		failures = append(failures, supplyFailures(supply, crossFlags, col)...)
+	}
+	tags = append(tags, "supply")
+
 	// a scan of the root as it is now
 	if _, _, err := scan(a.Root, snap, cache); err != nil && c.Kind != "root-replaced" {
 		// a failing scan is allowed; it must simply not touch the canary
@@ -433,6 +508,8 @@ type Spec struct {
 	DataDir string   `json:"datadir,omitempty"` // endpoint: MUTAGEN_DATA_DIRECTORY
 	Replace []string `json:"replace,omitempty"` // endpoint: paths under Root replaced by links to Canary in mid-cycle
 	Canary  string   `json:"canary,omitempty"`
+	Result  string   `json:"result,omitempty"` // where the child reports what a supply request delivered
+	Supply  []string `json:"supply,omitempty"` // endpoint: paths requested from the endpoint under test at the end
 	Cache   []byte   `json:"cache,omitempty"`
 	Changes [][]byte `json:"changes,omitempty"`
 }
@@ -463,6 +540,17 @@ func child(specPath string) {
 		}
 		opener.Close()
 		marker("end")
+	case "transmit":
+		col := &collector{}
+		marker("begin")
+		err := rsync.Transmit(spec.Root, spec.Paths, emptySignatures(len(spec.Paths)), rsync.NewEncodingReceiver(col))
+		marker("end")
+		if err != nil {
+			fmt.Fprintln(os.Stderr, err)
+			os.Exit(5)
+		}
+		rb, _ := json.Marshal(col)
+		must(os.WriteFile(spec.Result, rb, 0o600))
 	case "scan":
 		ignorer, err := mutagenignore.NewIgnorer(nil)
 		must(err)
@@ -487,7 +575,8 @@ func child(specPath string) {
 			core.SymbolicLinkMode_SymbolicLinkModePOSIXRaw, 0o600, 0o700, nil, false, st)
 		marker("end")
 	case "endpoint":
-		_, _, err := endpointCycle(spec.Source, spec.Root, spec.DataDir, func() {
+		col := &collector{}
+		_, _, err := endpointCycle(spec.Source, spec.Root, spec.DataDir, spec.Supply, col, func() {
 			marker("pause")
 			for _, p := range spec.Replace {
 				must(os.RemoveAll(filepath.Join(spec.Root, p)))
@@ -499,6 +588,8 @@ func child(specPath string) {
 			fmt.Fprintln(os.Stderr, err)
 			os.Exit(4)
 		}
+		rb, _ := json.Marshal(col)
+		must(os.WriteFile(spec.Result, rb, 0o600))
 	default:
 		os.Exit(9)
 	}
@@ -782,6 +873,7 @@ func runStrace(c StraceCase) straceOut {
 	op := "OpNone"
 	var inject []string
 	var transitionTerms []string
+	var supplyPaths []string // paths a supply request names (judged after the run)
 	stagingForCase := a.Staging
 	parts := strings.Split(c.Scenario, ":")
 	switch parts[0] {
@@ -806,6 +898,36 @@ func runStrace(c StraceCase) straceOut {
 			items[i] = coretree.Str(p)
 		}
 		op = "(OpOpener [" + strings.Join(items, "; ") + "])"
+	case "transmit":
+		sets := map[string][]string{
+			"plain":    {"d/f", "d/sub/g", "e", "k/h"},
+			"links":    {"l/secret", "labs/f", "lf", "k/kl", "l/sub/g", "e"},
+			"evil":     {"../canary/f", "d/../e", "d//f", "l/../e", "d/f"},
+			"replaced": {"d/f", "d/sub/g", "e", "k/h"},
+			"random":   nil,
+		}
+		paths := sets[parts[1]]
+		if parts[1] == "replaced" {
+			// after the scan, d became a link to the canary's d (which has f and sub/g)
+			replaceByLink(fixed(1), a, filepath.Join(a.Root, "d"))
+		}
+		if paths == nil {
+			pool := []string{"d/f", "d/sub/g", "e", "k/h", "l/secret", "labs/f", "lf", "k/kl", "l/sub/g", "missing", "d/missing", "l/f", "labs/sub/g"}
+			if r.Intn(2) == 0 {
+				replaceByLink(fixed(r.Intn(3)), a, filepath.Join(a.Root, "d"))
+			}
+			for i := 0; i < 6; i++ {
+				paths = append(paths, pool[r.Intn(len(pool))])
+			}
+			sort.Strings(paths)
+		}
+		spec.Op, spec.Paths = "transmit", paths
+		supplyPaths = paths
+		items := make([]string, len(paths))
+		for i, p := range paths {
+			items[i] = coretree.Str(p)
+		}
+		op = "(OpTransmit [" + strings.Join(items, "; ") + "])"
 	case "scan":
 		if len(parts) > 1 && parts[1] == "root-is-link" {
 			must(os.Rename(a.Root, a.Root+".moved"))
@@ -940,6 +1062,8 @@ func runStrace(c StraceCase) straceOut {
 		if len(parts) > 1 && parts[1] == "replaced" {
 			spec.Replace = []string{"d", "k"}
 		}
+		spec.Supply = []string{"d/f", "d/sub/g", "e", "k/h", "l/secret", "lf"}
+		supplyPaths = spec.Supply
 		stagingForCase = filepath.Join(dataDir, "staging", "sync_verifconfine-beta")
 		op = "OpNone"
 	default:
@@ -949,6 +1073,7 @@ func runStrace(c StraceCase) straceOut {
 	work, err := os.MkdirTemp("", "verif-spec-")
 	must(err)
 	defer os.RemoveAll(work)
+	spec.Result = filepath.Join(work, "result.json")
 	sb, _ := json.Marshal(spec)
 	specPath := filepath.Join(work, "spec.json")
 	must(os.WriteFile(specPath, sb, 0o600))
@@ -1006,6 +1131,23 @@ func runStrace(c StraceCase) straceOut {
 	canary := "true"
 	if before != after {
 		canary = "false"
+		tags = append(tags, "FAILED:the canary directory changed")
+	}
+	if supplyPaths != nil {
+		// what reached the receiving side (the links are as the child left them)
+		col := &collector{}
+		rb, err := os.ReadFile(spec.Result)
+		must(err)
+		must(json.Unmarshal(rb, col))
+		crossFlags := make([]bool, len(supplyPaths))
+		for i, p := range supplyPaths {
+			crossFlags[i] = crossesLink(a.Root, p, true)
+		}
+		if f := supplyFailures(supplyPaths, crossFlags, col); len(f) > 0 {
+			canary = "false"
+			tags = append(tags, "FAILED:"+strings.Join(f, "; "))
+		}
+		tags = append(tags, "supply")
 	}
 	return straceOut{
 		coq:  fmt.Sprintf("CC %s %s %s %s [%s]", coretree.Str(a.Root), coretree.Str(stagingForCase), canary, op, strings.Join(terms, ";\n  ")),
@@ -1061,6 +1203,7 @@ func main() {
 		}
 		scenarios := []string{
 			"opener:plain", "opener:links", "opener:evil", "opener:stack",
+			"transmit:plain", "transmit:links", "transmit:evil", "transmit:replaced",
 			"scan", "scan:root-is-link", "scan:root-is-file",
 			"transition:remove-file", "transition:remove-dir", "transition:remove-link",
 			"transition:create-file", "transition:create-tree", "transition:create-link",
@@ -1075,12 +1218,13 @@ func main() {
 			items = append(items, item{strace: &StraceCase{Scenario: s, Seed: cfg.Seed}, origin: "exhaustive"})
 		}
 		w.Extra["exhaustive_scope"] = fmt.Sprintf("%d strace scenarios: Opener.OpenFile sequences (plain, through links, malformed paths, handle-stack reuse), core.Scan (root a directory / a link / a file), core.Transition for every kind of change, each also with a directory or the root on its path replaced by a link to the canary after the scan", len(scenarios))
-		nOpener, nCanary := 8, 150
+		nOpener, nCanary := 5, 150
 		if cfg.Thorough() {
-			nOpener, nCanary = 60, 4000
+			nOpener, nCanary = 40, 4000
 		}
 		for i := 0; i < nOpener; i++ {
 			items = append(items, item{strace: &StraceCase{Scenario: "opener:random", Seed: cfg.Seed*7919 + int64(i)}, origin: "random"})
+			items = append(items, item{strace: &StraceCase{Scenario: "transmit:random", Seed: cfg.Seed*104729 + int64(i)}, origin: "random"})
 		}
 		for i := 0; i < nCanary; i++ {
 			kind := "mixed"
